@@ -72,6 +72,15 @@ Probes ==
       T("WriteSubDoc", [A0 EXCEPT !.path = "a", !.val = "s2"]),
       T("Touch", [A0 EXCEPT !.exp = "E2"]) }
 
+(* after a copy that keeps the CAS of the same key elsewhere: calls that find their row by CAS, or might *)
+SibProbes ==
+    { T("WriteCas", WithBody([A0 EXCEPT !.casc = "cur"], "J1")),
+      T("Touch", [A0 EXCEPT !.exp = "E2"]),
+      T("GetAndTouchRaw", [A0 EXCEPT !.exp = "E1"]),
+      T("Remove", [A0 EXCEPT !.casc = "cur"]),
+      T("UpdateXattrs", [A0 EXCEPT !.casc = "cur", !.sets = Sets1("u", XA("x1", FALSE, FALSE))]),
+      T("WriteSubDoc", [A0 EXCEPT !.path = "a", !.val = "s2", !.casc = "cur"]) }
+
 (* the same key in another collection and another key in the same collection, so that leaks show *)
 Neighbours == <<Call("Set", "c0", "k1", WithBody([A0 EXCEPT !.exp = "E2"], "J3")), Call("Add", "c1", "k2", WithBody(A0, "J1"))>>
 
@@ -92,8 +101,8 @@ CoverNext ==
          \E a \in Sample(op) :
             \* (an instance that refers to a neighbouring document needs the neighbours; a copy that keeps the CAS of the
             \*  same key elsewhere is followed by a write conditional on exactly that CAS)
-            /\ hist' = (IF a.newc = "sib" \/ a.casc = "sibkey" \/ RandomElement(1..3) = 1 THEN Neighbours ELSE <<>>) \o pre \o <<T(op, a)>>
-                        \o <<IF a.newc = "sib" THEN T("WriteCas", WithBody([A0 EXCEPT !.casc = "cur"], "J1")) ELSE RandomElement(Probes)>>
+            /\ hist' = (IF a.newc = "sib" \/ a.casc = "sibkey" \/ RandomElement(1..3) = 1 THEN Neighbours ELSE <<>>) \o pre \o <<[T(op, a) EXCEPT !.h = RandomElement({"", "", "h2"})]>>     \* (sometimes through the bucket's second handle)
+                        \o <<IF a.newc = "sib" THEN RandomElement(SibProbes) ELSE RandomElement(Probes)>>
             /\ PrintT(<<"BEHAVIOUR", ToJson(hist')>>)
     /\ UNCHANGED vars
 CoverInit == Init /\ hist = <<>>
